@@ -1132,3 +1132,191 @@ def mon_C18r(ctx):
                 if not ok:
                     ctx.bad('report-status-line-differs', TRUE)
                     ctx.extra.setdefault('dbg', []).append((ln, [(cid, A['cstate'][cid]['state'], show(A['cstate'][cid].get('vote'))) for cid in cids], A['tag']))
+
+
+# ---------------------------------------------------------------------------------------------------
+# C03: statutory rules against reference transcriptions of their published texts
+
+def _norm_stages(st):
+    "drop trailing 'elect' stages (why the last candidates are declared elected is not compared) "
+    st = list(st)
+    while st and st[-1][0] == 'elect':
+        st.pop()
+    return st
+
+
+def _stages_differ(ctx, A, B):
+    "returns ('STRUCT', why) or ('COND', [conds]) for two stage lists"
+    A, B = _norm_stages(A), _norm_stages(B)
+    if len(A) != len(B):
+        return 'STRUCT', 'number of stages %d vs %d' % (len(A), len(B))
+    conds = []
+    for k, (a, b) in enumerate(zip(A, B)):
+        if a[0] != b[0]:
+            return 'STRUCT', 'stage %d: %s vs %s' % (k, a[0], b[0])
+        if a[0] == 'elect':
+            if frozenset(a[1]) != frozenset(b[1]):
+                return 'STRUCT', 'stage %d elects %s vs %s' % (k, sorted(a[1]), sorted(b[1]))
+            continue
+        if (frozenset(a[1]) if a[0] == 'exclude' else a[1]) != (frozenset(b[1]) if b[0] == 'exclude' else b[1]):
+            return 'STRUCT', 'stage %d %s %s vs %s' % (k, a[0], a[1], b[1])
+        if (a[2] is None) != (b[2] is None):
+            return 'STRUCT', 'stage %d: transfer made by one side only' % k
+        if a[2] is not None:
+            if set(a[2]) != set(b[2]):
+                return 'STRUCT', 'stage %d candidates' % k
+            for c in a[2]:
+                conds.append(lz(a[2][c]) != lz(b[2][c]))
+    return 'COND', conds
+
+
+def mon_C03(ctx):
+    if ctx.exc is not None:
+        return
+    from refs import common
+    E = ctx.E
+    rule = ctx.rule
+    names = name2cid(ctx)
+    impl, impl_final = common.impl_stages(E, names)
+    ts = ctx.ts
+    if ts is None:
+        rank = {c.cid: c.tieOrder for c in E.C}
+    else:
+        from symex.core import SymInt
+        rank = {c.cid: c.tieOrder for c in E.C}
+    cands = [c.cid for c in E.C if c.state != 'withdrawn' or False]
+    cands = sorted(c for c in ctx.U.eligible)
+    nb = E.nBallots
+    if rule in ('wigm-prf', 'wigm-prf-batch'):
+        from refs import wigm_prf as R
+        S = R.S
+        quota_ref = nb * S * S // ((ctx.seats + 1) * S) + 1
+        def run(follow_impl, notes):
+            return R.count(cands, ctx.seats, common.papers_from(E, S), rank, nb, rule.endswith('batch'), follow_impl, notes)
+    elif rule == 'scotland':
+        from refs import scotland as R
+        S = R.S
+        quota_ref = (nb // (ctx.seats + 1) + 1) * S
+        def run(follow_impl, notes):
+            return R.count(cands, ctx.seats, common.papers_from(E, S), rank, nb, follow_impl, notes)
+    elif rule == 'meek-prf':
+        return _c03_meek_prf(ctx, cands, rank, nb)
+    elif rule == 'qpq':
+        return _c03_qpq(ctx, cands, rank, nb)
+    else:
+        return
+    ctx.reach('reference-run')
+    # quota
+    ctx.bad('quota-differs-from-the-text', lz(E.quota._value) != lz(quota_ref))
+    notes_t, notes_i = [], []
+    ref_t, fin_t = run(False, notes_t)
+    kind, x = _stages_differ(ctx, impl, ref_t)
+    same_as_text = kind == 'COND' and fin_t == impl_final
+    if same_as_text:
+        c_ = z3.simplify(z3.Or(*x)) if x else z3.BoolVal(False)
+        if z3.is_false(c_):
+            ctx.reach('matches-text')
+            return
+    # differs from the text (or only equal for some inputs of this path): is it the recorded departure, and nothing else?
+    ref_i, fin_i = run(True, notes_i)
+    kind2, x2 = _stages_differ(ctx, impl, ref_i)
+    if kind2 == 'STRUCT':
+        ctx.bad('history-differs-from-the-text:%s' % x2.split(':')[0][:30], TRUE)
+        return
+    if fin_i != impl_final:
+        ctx.bad('winners-differ-from-the-text', TRUE)
+        return
+    if x2:
+        ctx.bad('tallies-differ-from-the-text', z3.Or(*x2))
+    if kind == 'STRUCT' or fin_t != impl_final:
+        # matches only with the recorded departures switched on
+        ctx.reach('text-departure')
+        for n_ in sorted(set(notes_i)):
+            ctx.bad('text-departure:%s' % n_, TRUE)
+        if not notes_i:
+            ctx.bad('history-differs-from-the-text:unexplained', TRUE)
+    elif same_as_text:
+        ctx.bad('tallies-differ-from-the-text', z3.Or(*x))
+
+
+def _c03_meek_prf(ctx, cands, rank, nb):
+    from refs import common, meek_prf as R
+    E = ctx.E
+    names = name2cid(ctx)
+    ev, fin = R.count(cands, ctx.seats, common.papers_from(E, R.S), rank, nb)
+    ctx.reach('reference-run')
+    # the implementation's events: in-iteration elections (grouped) and pre-exclusion snapshots
+    acts = ctx.acts
+    impl = []
+    for A in acts:
+        if A['tag'] == 'elect' and 'remaining' not in A['msg']:
+            cid = names[A['msg'].split(': ', 1)[1]]
+            if impl and impl[-1][0] == 'elect' and impl[-1][3] is prev_votes_id(A, impl[-1]):
+                impl[-1][1].add(cid)
+                impl[-1][2] = A
+            else:
+                impl.append(['elect', {cid}, A, A['round']])
+        elif A['tag'] == 'defeat' and 'remaining' not in A['msg']:
+            impl.append(['exclude', names[A['msg'].split(': ', 1)[1]], A, A['round']])
+    if len(impl) != len(ev):
+        ctx.bad('history-differs-from-the-text:number of events', TRUE)
+        return
+    conds = []
+    for a, b in zip(impl, ev):
+        if a[0] != b[0] or (frozenset(a[1]) if a[0] == 'elect' else a[1]) != b[1]:
+            ctx.bad('history-differs-from-the-text:%s' % a[0], TRUE)
+            return
+        A = a[2]
+        votes, quota, surplus, kf = b[2]
+        conds.append(lz(A['quota']._value) != lz(quota))
+        if a[0] == 'exclude':
+            # (the record logs an election before B.2.d recomputes the total surplus, so only exclusions show it)
+            conds.append(lz(A['surplus']._value) != lz(surplus))
+        for c, s_ in A['cstate'].items():
+            if 'vote' not in s_:
+                continue
+            conds.append(lz(s_['vote']._value) != lz(votes[c]))
+            # the record shows the keep factors as they stand at the event (a candidate elected in this very iteration keeps 1)
+            conds.append(lz(s_['kf']._value) != lz(kf[c]))
+    if fin != frozenset(c.cid for c in E.C if c.state == 'elected'):
+        ctx.bad('winners-differ-from-the-text', TRUE)
+    if conds:
+        ctx.bad('tallies-differ-from-the-text', z3.Or(*conds))
+    ctx.reach('matches-text')
+
+
+def prev_votes_id(A, last):
+    "consecutive 'elect' actions of one iteration belong together: same round, and nothing but elections in between"
+    return last[3] if A['round'] == last[3] else None
+
+
+def _c03_qpq(ctx, cands, rank, nb):
+    from refs import common, qpq as R
+    E = ctx.E
+    names = name2cid(ctx)
+    ev, fin = R.count(cands, ctx.seats, common.papers_from(E, R.S), rank, nb)
+    ctx.reach('reference-run')
+    acts = ctx.acts
+    impl = []
+    for A in acts:
+        if A['tag'] == 'elect' and 'remaining' not in A['msg']:
+            impl.append(('elect', names[A['msg'].split(': ', 1)[1]], A))
+        elif A['tag'] == 'defeat' and 'remaining' not in A['msg']:
+            impl.append(('exclude', names[A['msg'].split(': ', 1)[1]], A))
+    if len(impl) != len(ev):
+        ctx.bad('history-differs-from-the-text:number of events', TRUE)
+        return
+    conds = []
+    for a, b in zip(impl, ev):
+        if a[0] != b[0] or a[1] != b[1]:
+            ctx.bad('history-differs-from-the-text:%s' % a[0], TRUE)
+            return
+        A = a[2]
+        conds.append(lz(A['quota']._value) != lz(b[3]))
+        for c, qv in b[2].items():
+            conds.append(lz(A['cstate'][c]['quotient']._value) != lz(qv))
+    if fin != frozenset(c.cid for c in E.C if c.state == 'elected'):
+        ctx.bad('winners-differ-from-the-text', TRUE)
+    if conds:
+        ctx.bad('tallies-differ-from-the-text', z3.Or(*conds))
+    ctx.reach('matches-text')
